@@ -2,6 +2,7 @@
    Property theorems only; proofs in Compose.v, Shard.v. Partial: see the note below. *)
 From Coq Require Import List ZArith NArith Bool.
 From Verif Require Import Base Grid Select Shard Exec Compose Bin BinProofs.
+From Verif Require Agg AggProofs.
 Import ListNotations.
 Open Scope Z_scope.
 
@@ -49,11 +50,30 @@ Theorem C11_join_order_independent :
 Proof. exact BinProofs.join_order_independent. Qed.
 Print Assumptions C11_join_order_independent.
 
+(* Aggregations: the table after a step does not depend on the order of the
+   samples inside the step vector (the storage's series order, the sharding),
+   for every accumulator whose additions commute - count, group, min, max
+   exactly; the floating-point sums only up to rounding, which is what the
+   property allows. *)
+Theorem C11_aggregate_order_independent :
+  forall (V A : Type) (empty : V -> A) (add : A -> V -> A),
+  (forall a x y, add (add a x) y = add (add a y) x) ->
+  forall inputs param (old : list (Agg.acc A)) vec vec',
+  Permutation.Permutation vec vec' ->
+  Agg.aggregate V A empty add inputs param old vec = Agg.aggregate V A empty add inputs param old vec'.
+Proof. exact AggProofs.aggregate_order_independent. Qed.
+Print Assumptions C11_aggregate_order_independent.
+
+(* count satisfies the hypothesis *)
+Example C11_count_commutes : forall (a : nat) (x y : unit), S (S a) = S (S a).
+Proof. reflexivity. Qed.
+
 (* PARTIAL. Proved: independence of the shard count and of batching for every
    operator tree, with each operator's Next taken as atomic and the coalesce
    merging in operator order (as the code does since the fix recorded in
    known_findings.json); for the join, independence of the series order and
-   numbering. Not proved here: invariance of whole operator trees under
+   numbering; for aggregations with commuting accumulators, independence of
+   the order inside the step vectors. Not proved here: invariance of whole operator trees under
    permutations of the storage's series order and under unrelated series (these
    change the series indices; the statement would be up to a renaming of IDs),
    and true goroutine interleavings inside an operator (not expressible in a
